@@ -38,7 +38,10 @@ def spec_accepts(name: str) -> bool:
     like 7-Zip, maps it to '/'); resolve '..' lexically against a virtual root; a name the table cannot hold is rejected."""
     if not representable(name):
         return False
-    name = name.replace("\\", "/")
+    # what the archive will hold: '/'-separated components without the empty and '.' ones (a leading '/' kept) ...
+    stored = ("/" if name.startswith("/") else "") + "/".join(c for c in name.split("/") if c not in ("", "."))
+    # ... and what a reader makes of it
+    name = stored.replace("\\", "/")
     if name.startswith("/"):
         return False
     depth = 0
@@ -132,7 +135,7 @@ def run_case(case):
         for comps in itertools.product(comps_a, repeat=n):
             for seps in itertools.product("/\\", repeat=n - 1):
                 body = comps[0] + "".join(s_ + c for s_, c in zip(seps, comps[1:]))
-                for lead in ("", "/", "\\", "\\\\", "/\\"):
+                for lead in ("", "/", "\\", "\\\\", "/\\", "./", ".//./", "./\\", "././\\\\"):
                     for trail in ("", "/", "\\"):
                         name = lead + body + trail
                         if name == "":
@@ -164,7 +167,7 @@ def run_case(case):
                 nm = r.choice([
                     "a\x00/" + base, base + "\x00", "\x00", "bad\ud800" + base, base + "/\udc80x",
                     "a" * 65536 + "/" + base, "a" * 65535, "a" * 65534 + "/b", "\U0001F600" * 32768, "\U0001F600" * 32767 + "b",
-                    "\\" + base.replace("/", "\\"), "..\\..\\" + base, "a\\..\\..\\" + base, "a\\" + base, "c:\\" + base, base + "\\..\\..", "\\\\srv\\share\\" + base])
+                    "\\" + base.replace("/", "\\"), "./\\" + base, ".//./\\\\srv/" + base, "..\\..\\" + base, "a\\..\\..\\" + base, "a\\" + base, "c:\\" + base, base + "\\..\\..", "\\\\srv\\share\\" + base])
             elif style < 0.6:
                 n = r.randint(1, 6)
                 nm = r.choice(["", "", "/", "//"]) + "/".join(r.choice(alph) for _ in range(n)) + r.choice(["", "", "/"])
@@ -234,7 +237,7 @@ def run_case(case):
             for p in ("\\abs.txt", "c:\\win.txt", "\\etc/passwd", "sub/\\lead"):
                 with open(os.path.join(root, p), "wb") as f:
                     f.write(p.encode())
-            style = r.choice(["abs-file", "abs-dir", "rel-dir", "rel-file", "dotdot-rel", "abs-pathobj", "dot-dir", "bs-file", "bs-drive", "bs-dir", "bs-pathobj", "undecodable-name"])
+            style = r.choice(["abs-file", "abs-dir", "rel-dir", "rel-file", "dotdot-rel", "abs-pathobj", "dot-dir", "bs-file", "bs-drive", "bs-dir", "bs-pathobj", "bs-shielded", "undecodable-name"])
             cwd = os.getcwd()
             try:
                 os.chdir(os.path.join(d, "w"))
@@ -263,6 +266,10 @@ def run_case(case):
                     elif style == "bs-dir":
                         os.chdir(root)
                         z.writeall("\\etc")
+                    elif style == "bs-shielded":
+                        os.chdir(root)
+                        z.write("./\\abs.txt")
+                        z.write(".//./c:\\win.txt")
                     elif style == "bs-pathobj":
                         os.chdir(root)
                         z.write(pathlib.Path("\\abs.txt"))
